@@ -67,6 +67,8 @@ def run(ctx):
             lo, los, hi, his = float_interval(r.facts, param(p))
             ok = lo >= 0.0 and (hi < 1.0 or (hi == 1.0 and his))
             ctx.report("offset-guard", "%s:%s" % (fn, p), ok, "%s ∈ [%r, %r%s at every normal return (required [0, 1))" % (p, lo, hi, ")" if his else "]"), at=b.span)
+    from rules import c03_vertices
+    c03_vertices.run(ctx, crate)
     if ctx.tier == "thorough":
         dbg = ctx.crate("dbg")
         for m in LAYER_ACCESSORS:
